@@ -25,9 +25,9 @@ MemberBytes(name, off, n) ==
 \* a program whose behaviour the standard defines must not be translated into IR that traps,
 \* uses an undefined value, accesses memory out of bounds or is malformed
 DefinedStaysDefined == Judged => status = "ok"
-SameReturn  == (Judged /\ status = "ok") => ret = SrcObs.ret
-SameGlobals == (Judged /\ status = "ok") =>
+SrcSameReturn  == (Judged /\ status = "ok") => ret = SrcObs.ret
+SrcSameGlobals == (Judged /\ status = "ok") =>
                   \A j \in 1..Len(SrcObs.globals) :
                      LET g == SrcObs.globals[j] IN MemberBytes(g.name, g.off, Len(g.bytes)) = g.bytes
-SameCalls   == (Judged /\ status = "ok") => calls = SrcObs.calls
+SrcSameCalls   == (Judged /\ status = "ok") => calls = SrcObs.calls
 =============================================================================
